@@ -1,5 +1,7 @@
-(* Model of pfcpiface/fteid.go (FTEIDGenerator) and of the local-SEID choice in
-   sessions.go NewPFCPSession.  No proofs here. *)
+(* Model of pfcpiface/fteid.go (FTEIDGenerator), of the local-SEID choice in sessions.go
+   NewPFCPSession, and of the part of messages_session.go handleSessionEstablishmentRequest that
+   carries the chosen identifiers into the PDRs, the datapath call and the response.
+   No proofs here. *)
 From Coq Require Import NArith List Bool.
 Import ListNotations.
 Open Scope N_scope.
@@ -8,34 +10,40 @@ Definition U32 : N := 4294967296.
 Definition MAXV : N := 4294967295.      (* maxValue = math.MaxUint32 *)
 Definition MINV : N := 1.               (* minValue *)
 
-Record gen := Gen { offset : N; used : list N }.   (* usedMap: set of offsets *)
+(* offset: uint32 cursor; usedMap: the set of offsets marked used (a Go map: keys are unique) *)
+Record gen := Gen { offset : N; used : list N }.
+
+Definition new_gen : gen := Gen 0 [].   (* NewFTEIDGenerator *)
 
 Definition mem (x : N) (l : list N) : bool := existsb (N.eqb x) l.
 Fixpoint del (x : N) (l : list N) : list N :=
   match l with [] => [] | y :: r => if x =? y then del x r else y :: del x r end.
 
-(* offset++ ; offset = offset % maxValue   (uint32) *)
+(* updateOffset:  offset++ (uint32, wraps at 2^32) ; offset = offset % maxValue *)
 Definition update_offset (o : N) : N := ((o + 1) mod U32) mod MAXV.
 
 Inductive ares := AOk (id : N) (g : gen) | AErr (g : gen) | AFuel.
 
-(* the for { } loop of Allocate; fuel bounds the iterations *)
+(* the for { } loop of Allocate; [fuel] bounds the iterations (sufficiency is proved in
+   Proofs/FteidProofs.v: AFuel is never returned).
+   result: None = out of fuel, Some None = full cycle (error), Some (Some off) = free offset *)
 Fixpoint find_free (fuel : nat) (begin off : N) (u : list N) : option (option N) :=
   match fuel with
   | O => None
   | S f =>
     if mem off u then
       let off' := update_offset off in
-      if off' =? begin then Some None       (* full cycle: error, offset left at begin *)
+      if off' =? begin then Some None       (* back at offsetBegin: error, offset == offsetBegin *)
       else find_free f begin off' u
     else Some (Some off)
   end.
 
+(* Allocate: usedMap[offset] = true; id := offset + minValue (uint32); updateOffset() *)
 Definition allocate (g : gen) : ares :=
   match find_free (S (length (used g))) (offset g) (offset g) (used g) with
   | None => AFuel
   | Some None => AErr (Gen (offset g) (used g))
-  | Some (Some off) => AOk (off + MINV) (Gen (update_offset off) (off :: used g))
+  | Some (Some off) => AOk ((off + MINV) mod U32) (Gen (update_offset off) (off :: used g))
   end.
 
 Definition free_id (id : N) (g : gen) : gen :=
@@ -44,14 +52,15 @@ Definition free_id (id : N) (g : gen) : gen :=
 Definition is_allocated (id : N) (g : gen) : bool :=
   if id <? MINV then false else mem (id - MINV) (used g).
 
-Inductive op := OAlloc | OFree (id : N).
-Inductive out := ROk (id : N) | RErr | RFuel | RNone.
+Inductive op := OAlloc | OFree (id : N) | OIsAlloc (id : N).
+Inductive out := ROk (id : N) | RErr | RFuel | RNone | RBool (b : bool).
 
 Definition step (g : gen) (o : op) : gen * out :=
   match o with
   | OAlloc => match allocate g with
               | AOk id g' => (g', ROk id) | AErr g' => (g', RErr) | AFuel => (g, RFuel) end
   | OFree id => (free_id id g, RNone)
+  | OIsAlloc id => (g, RBool (is_allocated id g))
   end.
 
 Fixpoint run (g : gen) (ops : list op) : gen * list out :=
@@ -60,14 +69,158 @@ Fixpoint run (g : gen) (ops : list op) : gen * list out :=
   | o :: r => let '(g', x) := step g o in let '(g'', xs) := run g' r in (g'', x :: xs)
   end.
 
-(* ---- NewPFCPSession: first of at most [retries] draws that is not a stored local SEID ---- *)
-Fixpoint new_seid (retries : nat) (draws : list N) (store : list N) : option N * list N :=
-  match retries with
-  | O => (None, draws)
-  | S r =>
-    match draws with
-    | [] => (None, [])                      (* stream exhausted: not reachable with an infinite source *)
-    | d :: ds => if mem d store then new_seid r ds store else (Some d, ds)
-    end
+(* the TEIDs currently handed out *)
+Definition live_ids (g : gen) : list N := map (fun o => o + MINV) (used g).
+
+(* The TEID sentence of the property as a boolean monitor over one observed history:
+   [held] = ids handed out and not yet released.  Every id returned is in [1, 2^32-1] and not
+   currently held; a refusal is justified only when all 2^32-1 ids are held; IsAllocated tells
+   the truth.  Evaluated on the model (theorem C07_teid_history) and on the implementation. *)
+Fixpoint hist_ok (held : list N) (ops : list op) (outs : list out) : bool :=
+  match ops, outs with
+  | [], [] => true
+  | OAlloc :: r, ROk id :: s =>
+      (MINV <=? id) && (id <=? MAXV) && negb (mem id held) && hist_ok (id :: held) r s
+  | OAlloc :: r, RErr :: s => (N.of_nat (length held) =? MAXV) && hist_ok held r s
+  | OFree id :: r, RNone :: s => hist_ok (del id held) r s
+  | OIsAlloc id :: r, RBool b :: s => Bool.eqb b (mem id held) && hist_ok held r s
+  | _, _ => false
   end.
-Definition MAX_RETRIES : nat := 100.
+
+(* ---- NewPFCPSession: the first of at most [retries] draws that is neither 0 nor a stored local
+   SEID.  The random source is an arbitrary stream of draws (nat -> N); [i] is the index of the
+   next draw; the result carries the index after the last draw consumed. ---- *)
+Definition stream := nat -> N.
+
+Fixpoint new_seid (retries : nat) (draws : stream) (i : nat) (store : list N) : option N * nat :=
+  match retries with
+  | O => (None, i)
+  | S r =>
+    let d := draws i in
+    if (d =? 0) || mem d store then new_seid r draws (S i) store else (Some d, S i)
+  end.
+Definition MAX_RETRIES : nat := 100.      (* maxRetries in NewPFCPConn *)
+
+(* a draw that NewPFCPSession skips *)
+Definition bad_draw (store : list N) (d : N) : bool := (d =? 0) || mem d store.
+
+(* ---- Session establishment, reduced to what concerns the UP-chosen identifiers ---- *)
+Definition CAUSE_ACCEPTED : N := 1.
+Definition CAUSE_REJECTED : N := 64.
+Definition CAUSE_NO_ASSOC : N := 72.
+Definition CAUSE_NO_RESOURCES : N := 75.
+
+(* a Create PDR as far as the F-TEID is concerned: parse outcome, CHOOSE flag, and the TEID / IPv4
+   address of a CP-provided F-TEID *)
+Record cpdr := CPdr { cp_id : N; cp_parse_ok : bool; cp_choose : bool; cp_teid : N; cp_ip : N }.
+(* the pdr handed to the datapath: fseID, pdrID, tunnelTEID, tunnelIP4Dst, UPAllocateFteid *)
+Record dpdr := DPdr { d_fseid : N; d_id : N; d_teid : N; d_ip : N; d_choose : bool }.
+
+(* the Create PDR loop: parsePDR, then Allocate for CHOOSE PDRs, then session.CreatePDR.
+   Result: generator, the PDRs added to the session so far, and the refusal cause if the loop
+   stopped early *)
+Fixpoint build_pdrs (lseid access : N) (g : gen) (ps : list cpdr) : gen * list dpdr * option N :=
+  match ps with
+  | [] => (g, [], None)
+  | p :: r =>
+    if negb (cp_parse_ok p) then (g, [], Some CAUSE_REJECTED)
+    else if cp_choose p then
+      match allocate g with
+      | AOk id g' =>
+        let '(g2, ds, c) := build_pdrs lseid access g' r in
+        (g2, DPdr lseid (cp_id p) id access true :: ds, c)
+      | AErr g' => (g', [], Some CAUSE_NO_RESOURCES)
+      | AFuel => (g, [], Some 0)
+      end
+    else
+      let d := if cp_teid p =? 0 then DPdr lseid (cp_id p) 0 0 false
+               else DPdr lseid (cp_id p) (cp_teid p) (cp_ip p) false in
+      let '(g2, ds, c) := build_pdrs lseid access g r in (g2, d :: ds, c)
+  end.
+
+(* the TEIDs the UPF chose for a list of PDRs *)
+Definition chosen (ds : list dpdr) : list N := map d_teid (filter d_choose ds).
+
+(* releaseAllocatedFTEIDs: FreeID(tunnelTEID) for every pdr with UPAllocateFteid, in order *)
+Definition release (ts : list N) (g : gen) : gen := fold_left (fun g t => free_id t g) ts g.
+
+(* addPdrInfo: one Created PDR (pdr id, TEID, IPv4) per PDR with UPAllocateFteid *)
+Definition created_of (ds : list dpdr) : list (N * N * N) :=
+  map (fun d => (d_id d, d_teid d, d_ip d)) (filter d_choose ds).
+
+Inductive eres :=
+| EAccepted (lseid : N) (created : list (N * N * N)) (batch : list dpdr)
+| ERefused (cause : N) (batch : option (list dpdr)).   (* batch = what reached the datapath, if anything *)
+
+(* [st] = local SEIDs stored on the association, [i] = position in its draw stream.
+   Every rejection after NewPFCPSession rolls back: the TEIDs chosen so far are released. *)
+Definition establish (retries : nat) (access : N) (draws : stream) (assoc_ok dp_ok : bool)
+           (ps : list cpdr) (st : list N) (i : nat) (g : gen) : eres * nat * gen :=
+  if negb assoc_ok then (ERefused CAUSE_NO_ASSOC None, i, g)
+  else
+    match new_seid retries draws i st with
+    | (None, j) => (ERefused CAUSE_NO_RESOURCES None, j, g)
+    | (Some l, j) =>
+      match build_pdrs l access g ps with
+      | (g', ds, Some cause) => (ERefused cause None, j, release (chosen ds) g')
+      | (g', ds, None) =>
+        if dp_ok then (EAccepted l (created_of ds) ds, j, g')
+        else (ERefused CAUSE_REJECTED (Some ds), j, release (chosen ds) g')
+      end
+    end.
+
+(* histories over several associations sharing one generator *)
+Inductive ev :=
+| EvEst (k : nat) (assoc_ok dp_ok : bool) (ps : list cpdr)
+| EvDel (k : nat) (seid : N)           (* Session Deletion Request for local SEID [seid] *)
+| EvMod (k : nat) (seid : N) (ch : bool) (teid : N).
+  (* Session Modification Request that leaves on session [seid] a new PDR with UPAllocateFteid = ch
+     and tunnelTEID = teid.  parseFTEID sets the flag for a CHOOSE F-TEID and the TEID for any other
+     F-TEID of the PDI; the modification handler allocates nothing, so the generator is untouched,
+     but the session will release [teid] when it ends (FreeID(0) is a no-op: a zero TEID is not
+     recorded). *)
+
+(* a live session: association, local SEID, the TEIDs chosen for it *)
+Record sess := Sess { s_conn : nat; s_seid : N; s_teids : list N }.
+
+Record world := World { w_sess : list sess; w_drawn : nat -> nat; w_gen : gen }.
+
+Definition store_of (k : nat) (ss : list sess) : list N :=
+  map s_seid (filter (fun s => Nat.eqb (s_conn s) k) ss).
+Definition is_sess (k : nat) (seid : N) (s : sess) : bool := Nat.eqb (s_conn s) k && (s_seid s =? seid).
+Definition all_teids (ss : list sess) : list N := concat (map s_teids ss).
+
+Definition ev_step (retries : nat) (access : N) (draws : nat -> stream) (w : world) (e : ev)
+  : world * option eres :=
+  match e with
+  | EvEst k assoc_ok dp_ok ps =>
+    let '(r, j, g') := establish retries access (draws k) assoc_ok dp_ok ps
+                                 (store_of k (w_sess w)) (w_drawn w k) (w_gen w) in
+    let dr := fun k' => if Nat.eqb k' k then j else w_drawn w k' in
+    (World (match r with
+            | EAccepted l _ batch => Sess k l (chosen batch) :: w_sess w
+            | ERefused _ _ => w_sess w
+            end) dr g', Some r)
+  | EvDel k seid =>
+    (* handleSessionDeletionRequest: unknown SEID -> rejected, nothing changes; otherwise the
+       TEIDs of the session are released and the session is removed *)
+    (World (filter (fun s => negb (is_sess k seid s)) (w_sess w)) (w_drawn w)
+           (release (all_teids (filter (is_sess k seid) (w_sess w))) (w_gen w)), None)
+  | EvMod k seid ch teid =>
+    (World (map (fun s => if is_sess k seid s && ch && negb (teid =? 0)
+                          then Sess (s_conn s) (s_seid s) (s_teids s ++ [teid]) else s) (w_sess w))
+           (w_drawn w) (w_gen w), None)
+  end.
+
+(* the shape of modification that makes a session claim a TEID it was never given *)
+Definition ev_claims (e : ev) : bool :=
+  match e with EvMod _ _ ch teid => ch && negb (teid =? 0) | _ => false end.
+
+Fixpoint ev_run (retries : nat) (access : N) (draws : nat -> stream) (w : world) (es : list ev)
+  : world * list (option eres) :=
+  match es with
+  | [] => (w, [])
+  | e :: r =>
+    let '(w1, x) := ev_step retries access draws w e in
+    let '(w2, xs) := ev_run retries access draws w1 r in (w2, x :: xs)
+  end.
